@@ -50,6 +50,8 @@ type c14Cfg struct {
 	zeroRTT   bool // ReceivedPacket(0-RTT) is part of the alphabet
 	coalesced bool
 	acks      bool
+	noAckOnly bool // leave the 40-byte ACK-only packets out of the SendAny alphabet
+	noRpInit  bool // leave ReceivedPacket(Initial) (a no-op for the limit) out
 }
 
 type c14SphInst struct {
@@ -99,7 +101,10 @@ func (in *c14SphInst) Ops() []explore.Op {
 	for _, n := range in.cfg.rbSizes {
 		ops = append(ops, explore.Op{N: "rb", A: n})
 	}
-	ops = append(ops, explore.Op{N: "rp", A: 0}, explore.Op{N: "rp", A: 1})
+	if !in.cfg.noRpInit {
+		ops = append(ops, explore.Op{N: "rp", A: 0})
+	}
+	ops = append(ops, explore.Op{N: "rp", A: 1})
 	if in.cfg.zeroRTT {
 		ops = append(ops, explore.Op{N: "rp", A: 3})
 	}
@@ -120,7 +125,7 @@ func (in *c14SphInst) Ops() []explore.Op {
 	switch mode := in.h.SendMode(in.now); mode {
 	case SendNone:
 	case SendAny:
-		for l := 0; l < levels; l++ {
+		for l := 0; l < levels && !in.cfg.noAckOnly; l++ {
 			ops = append(ops, explore.Op{N: "send", A: 40, B: l, C: 0}) // ACK-only
 		}
 		for _, sz := range in.cfg.sendSizes {
